@@ -142,7 +142,11 @@ def check_case(case):
     out = []
     V = lambda cell, sym, msg: out.append((cell, sym, msg))
     mins = MINS[case.get("mins", "default")]
-    g, (lo, hi), (olo, ohi), knots = make_grid(family, K, box, tb, pname, seed, dtype, inverse, per_bin, mins)
+    try:
+        g, (lo, hi), (olo, ohi), knots = make_grid(family, K, box, tb, pname, seed, dtype, inverse, per_bin, mins)
+    except Exception as e:
+        V("grid", "raises %s" % type(e).__name__, "forward on the input knots (all inside the box) raised %s: %s" % (type(e).__name__, str(e)[:100]))
+        return out, {"n": 0}
     x = torch.tensor(g, dtype=dtype)
     P = params_for(family, K, tb is not None, pname, seed, len(g), dtype)
     direction = "inverse" if inverse else "forward"
